@@ -32,7 +32,7 @@ from traits.trait_dict_object import TraitDict  # noqa: E402
 from traits.trait_list_object import TraitList  # noqa: E402
 from traits.trait_set_object import TraitSet  # noqa: E402
 
-EXN = ["NotifierNotFound"]
+EXN = ["NotifierNotFound", "ValueError"]
 FN = {0: "value", 1: "f", 2: "g", 3: "kids", 4: "m", 5: "s", 10: "trait_added", 11: "trait_modified",
       12: "x1", 13: "x2",      # 12, 13: dynamic Instance traits added with add_trait
       14: "groups"}            # a Dict(Str, List(Instance)): nested containers (dict object: pseudo-field 17)
